@@ -277,6 +277,17 @@ def sampled_cases(ctx, rng):
                 "deliver": deliver_fn(kind, v, random.Random(rng.randrange(1 << 30)), "s2", alt_i),
                 "force_nonce": None, "via_async_step": v % 4 == 3,
             })
+            if kind == "honest" and v % 5 == 0:
+                # a second (and third) login in the same process with the SAME user, password, salt and iteration count
+                # but the other hash variant, then the first variant again: logins must not share derived state
+                for k in (1, 2):
+                    twin = dict(cases[-1])
+                    twin["mech"] = ("SCRAM-SHA-256", "SCRAM-SHA-512")[(j + k) % 2]
+                    twin["src"] = "sampled"
+                    twin["variant"] = v
+                    twin["deliver"] = deliver_fn(kind, v, random.Random(rng.randrange(1 << 30)), "s2", alt_i)
+                    twin["suffix"] = "".join(rng.choice(NONCE_CHARS) for _ in range(rng.randrange(1, 41)))
+                    cases.append(twin)
     return cases
 
 
